@@ -865,7 +865,7 @@ def rs_new_table(prog, rep, R):
 def newline_use_discipline(prog, rep, R):
     """The configured newline string is only appended (emitters) or measured by its length (cursor code): it never decides anything."""
     sites = [c for c in prog.who_calls(RS + "::get_newline_str") if c.body.crate.startswith("pasfmt") and nondebug(c.body.npath)]
-    allowed = {RCL: "push", "pasfmt_core::rules::optimising_line_formatter::multiline_strings::StringFormatter::try_rewrite_string": "push",
+    allowed = {RCL: "push", RECON: "push", "pasfmt_core::rules::optimising_line_formatter::multiline_strings::StringFormatter::try_rewrite_string": "push",
                "pasfmt_core::defaults::reconstructor::DelphiLogicalLinesReconstructor::ws_len": "len", "pasfmt_core::defaults::reconstructor::DelphiLogicalLinesReconstructor::nl_len": "len"}
     for c in sites:
         base = c.body.npath
@@ -884,6 +884,8 @@ def newline_use_discipline(prog, rep, R):
                 if a["k"] in ("copy", "move") and any(x[0] == "call" and x[1] == c.bb for x in og.of_operand(a)):
                     users.append(c2.callee)
         okset = {"alloc::string::String::push_str"} if how == "push" else {"core::str::len"}
+        if how == "push":
+            okset |= {u for u in users if is_repeat_push_helper(prog, u)}
         rep.check(set(users) <= okset and users, R, "newline-str-use:%s" % short(base), "the newline string is used by %s in %s (allowed: %s)" % (users, short(base), sorted(okset)), where=c.where(),
                   instance={"body": short(base), "use": sorted(set(u.split("::")[-1] for u in users))})
     rep.floor(R, "get_newline_str call sites", len(sites), 5)
